@@ -38,7 +38,7 @@ def check_col(prog: Program, res: Result) -> None:
         return
     mat = allocs[0].targets[0].id
     shape = allocs[0].value.args[0] if allocs[0].value.args else None
-    ok = isinstance(shape, ast.Tuple) and len(shape.elts) == 2 and norm(shape.elts[1]) == "len(self.candidate.current_tracks)"
+    ok = isinstance(shape, ast.Tuple) and len(shape.elts) == 2 and astq.xnorm(gs.node, shape.elts[1]) == "len(self.candidate.current_tracks)"
     res.ob("C10-col", ok, gs.qualname, "one column per registered track id",
            f"the score matrix has shape {short(shape, 60) if shape is not None else '?'}: its columns are not the registered track ids",
            f"{gs.module.relpath}:{allocs[0].lineno}", sample={"shape": short(shape, 80) if shape is not None else None})
@@ -58,7 +58,7 @@ def check_col(prog: Program, res: Result) -> None:
         col = idx[-1] if idx else None
         loops = astq.enclosing_loops(st)
         col_loop = [l for l in loops if isinstance(l, ast.For) and col is not None and norm(l.target) == norm(col)]
-        ok = bool(col_loop) and norm(col_loop[0].iter) == "self.candidate.current_tracks"
+        ok = bool(col_loop) and astq.xnorm(gs.node, col_loop[0].iter) == "self.candidate.current_tracks"
         res.ob("C10-col", ok, gs.qualname, f"column index `{short(col, 20) if col is not None else '?'}` ranges over the track ids",
                f"the column index of `{short(t, 40)}` does not range over self.candidate.current_tracks", f"{gs.module.relpath}:{st.lineno}")
         row = idx[0] if len(idx) == 2 else None
